@@ -99,6 +99,63 @@ fn walk<'a, T: Elem + 'a, I: Iterator<Item = &'a T> + Clone>(what: &str, it: I) 
     out
 }
 
+/// One iterator object consumed in two ways: `k` elements through next(), the rest through a provided method that an
+/// implementation may specialise (fold / count / last / nth / for_each / collect). Together they must be the set.
+fn mixed<'a, T: Elem + 'a, I: Iterator<Item = &'a T> + Clone>(what: &str, it: I, k: usize, how: u64, want: &BTreeSet<u32>) {
+    let total = it.clone().count();
+    let k = k.min(total);
+    let mut it = it;
+    let mut out: Vec<u32> = Vec::new();
+    for _ in 0..k {
+        match it.next() {
+            Some(x) => out.push(x.id()),
+            None => {
+                crate::viol!("{}: next() ended after {} of {} elements", what, out.len(), total);
+                return;
+            }
+        }
+    }
+    let rest = total - k;
+    match how {
+        0 => {
+            let v: Vec<u32> = it.fold(Vec::new(), |mut a, x| {
+                a.push(x.id());
+                a
+            });
+            crate::check!(v.len() == rest, "{}: fold() after {} next() calls visited {} elements, {} remain", what, k, v.len(), rest);
+            out.extend(v);
+        }
+        1 => {
+            let n = it.count();
+            crate::check!(n == rest, "{}: count() after {} next() calls = {}, {} remain", what, k, n, rest);
+            return;
+        }
+        2 => {
+            let v: Vec<u32> = it.map(|x| x.id()).collect();
+            crate::check!(v.len() == rest, "{}: collect() after {} next() calls gave {} elements, {} remain", what, k, v.len(), rest);
+            out.extend(v);
+        }
+        3 => {
+            let mut v = Vec::new();
+            it.for_each(|x| v.push(x.id()));
+            crate::check!(v.len() == rest, "{}: for_each() after {} next() calls visited {} elements, {} remain", what, k, v.len(), rest);
+            out.extend(v);
+        }
+        4 => {
+            let n = it.skip(1).count();
+            crate::check!(n == rest.saturating_sub(1), "{}: skip(1).count() after {} next() calls = {}, {} remain", what, k, n, rest);
+            return;
+        }
+        _ => {
+            let l = it.last();
+            crate::check!(l.is_some() == (rest > 0), "{}: last() after {} next() calls is_some = {}, {} remain", what, k, l.is_some(), rest);
+            return;
+        }
+    }
+    out.sort();
+    expect_eq(&format!("{} ({} x next(), then the rest at once)", what, k), &out, want);
+}
+
 fn expect_eq(what: &str, got: &[u32], want: &BTreeSet<u32>) {
     let w: Vec<u32> = want.iter().copied().collect();
     if got != &w[..] {
@@ -154,6 +211,16 @@ fn pair_case<T: Elem>(c: &mut Ctx, rng: &mut Rng) {
     expect_eq(&format!("{} intersection (next)", what), &walk("intersection", ah.intersection(bh)), &int);
     expect_eq(&format!("{} difference (next)", what), &walk("difference", ah.difference(bh)), &dif);
     expect_eq(&format!("{} symmetric_difference (next)", what), &walk("symmetric_difference", ah.symmetric_difference(bh)), &sym);
+    {
+        // next() and the provided methods mixed on one iterator object
+        let k = rng.usize_below(uni.len() + 2);
+        let how = rng.below(6);
+        mixed(&format!("{} union", what), ah.union(bh), k, how, &uni);
+        mixed(&format!("{} intersection", what), ah.intersection(bh), k, how, &int);
+        mixed(&format!("{} difference", what), ah.difference(bh), k, how, &dif);
+        mixed(&format!("{} symmetric_difference", what), ah.symmetric_difference(bh), k, how, &sym);
+        mixed(&format!("{} iter", what), ah.iter(), k, how, &sa);
+    }
     let fold_ids = |it: &mut dyn Iterator<Item = &T>| -> Vec<u32> {
         let mut v = Vec::new();
         it.for_each(|x| v.push(x.id()));
